@@ -83,7 +83,7 @@ CLAIMS = {
  "C02": dict(
    category="fault_enumeration", design_ref="DESIGN.md §6 C02, §13.1",
    technique='(1) TLC enumerates the semantic fault space of the Edgebreaker connectivity decoder (MC_EbDecoder: every symbol string up to 4 (5) symbols x declared counts on the guard boundaries x topology-split tables x start-face bits, standard and valence traversal; invariants Guards/GuardsV) and of the sequential mesh connectivity decoder (MC_SeqDecoder: declared points / faces x stored indices in every width x compressed index differences), every row is assembled into a real stream and decoded under ASan+UBSan+libstdc++ assertions, the model predicts accept/reject, the decoded faces, the order in which the attribute decoder visits the vertices and the positions under parallelogram prediction (drift only); MC_KdTree: the integer kd-tree coder at request level (round trip and stack/axis bounds model-checked; honest encodings byte-compared with the real encoder, every single changed number / half bit / axis number replayed); MC_LegacyKd (pre-2.3 kd-tree clouds, integer and float method, every combination of the repeated point counts); MC_IntAttr (integer attribute header x values x wrap bounds x declared types); nested-metadata streams around and far above the nesting limit; (2) fault enumeration over the frozen corpus (every truncation, byte / 32-bit / varint patterns per offset, header and version rewrites, multi-site, splices) decoded through all public entry points under ASan+UBSan with a fork server; TLC (Trace_Fault) validates the Status / termination / input-untouched clauses on the recorded probes',
-   text='Each (stream, fault) pair is one probe attributed exactly; the only tolerated abnormal exit is an allocation failure; sanitizer reports, signals, hangs, uncaught exceptions and modified inputs are violations. Semantic faults: exhaustive within the stated bounds of MC_EbDecoder (position-only streams, no attribute seams).',
+   text='Each (stream, fault) pair is one probe attributed exactly; the only tolerated abnormal exit is an allocation failure; sanitizer reports, signals, hangs, uncaught exceptions and modified inputs are violations. The (stream, fault) pairs of repaired findings (checks/pinned_faults.json) are replayed in both tiers. Semantic faults: exhaustive within the stated bounds of MC_EbDecoder (position-only streams, no attribute seams).',
    note="Trusted: ASan/UBSan (memory safety, UB), the fork server's attribution, TLC for the record-level clauses. NDEBUG configuration."),
  "C14": dict(
    category="model_checking", design_ref="DESIGN.md §6 C14",
